@@ -6,6 +6,11 @@ ids = [json.loads(l)["id"] for l in open(os.path.join(HERE, "properties.jsonl"))
 
 # id -> (category, technique, level text, level note, design ref)
 CLAIMED = {
+ "C17": ("exploration",
+         "property-based testing over old-group shapes x successor member-set variants x parameter changes, with a set-equality / subset model predicting Ok / Err and wrong-joiner injection",
+         "Generated old groups (blank interior leaves, identity changes), ReInit with group-id / extension / cipher-suite changes and branch, successor member sets equal / subset / superset / replaced in shuffled order: creation succeeds exactly when the identity-set rule says so, the old group is frozen after ReInit, every old member joins and agrees, joiners without the old group state or at another epoch fail.",
+         "Welcomes with different extensions or epoch != 1 are not forged (the API cannot produce them).",
+         "DESIGN.md §4 C17"),
  "C18": ("exploration",
          "property-based testing over PSK lists x holder assignments x retention/join epochs with an explicit predicate for who must follow, plus canonical state equality for those who must not",
          "For generated PSK commits (1-4 external/resumption PSKs by value or by reference, optional joiner) and generated per-member holdings (same / different / absent value; resumption epochs relative to retention and join epoch), exactly the predicted members follow and agree, all others fail unchanged, joiners need the same PSKs.",
